@@ -223,6 +223,7 @@ def classify(body, uses, local, depth=0):
 
 
 def run(P, tables):
+    from common import norm_fn
     findings, obl, samples = [], [], []
     reach = entry_reach(P)
     sites, tracked = discard_sites(P, reach)
@@ -239,7 +240,7 @@ def run(P, tables):
         if s["idiom"] == "D-match" and s.get("callee") in probes:
             n_probe += 1
             continue
-        grouped[(s["fn"], s["idiom"], s["E"])].append(s)
+        grouped[(norm_fn(s["fn"]), s["idiom"], s["E"])].append(s)
     obl.append({"rule": "E3", "inst": f"{n_probe} is_ok()/is_err() tests on results of audited probe functions {sorted(probes)}", "ok": True})
     used = set()
     for key, ss in sorted(grouped.items()):
@@ -249,13 +250,13 @@ def run(P, tables):
             used.add(key)
             obl.append({"rule": "E3", "inst": f"{key[0]} {key[1]} on Result<_, {key[2]}> x{n}: audited ({e['reason'][:80]})", "ok": True})
             if len(samples) < 6:
-                samples.append({"rule": "E3", "site": P.site_loc(key[0], ss[0]["line"]), "idiom": key[1], "error_type": key[2], "verdict": "audited: " + e["reason"]})
+                samples.append({"rule": "E3", "site": P.site_loc(ss[0]["fn"], ss[0]["line"]), "idiom": key[1], "error_type": key[2], "verdict": "audited: " + e["reason"]})
             continue
         obl.append({"rule": "E3", "inst": f"{key[0]} {key[1]} on Result<_, {key[2]}> x{n}", "ok": False})
         extra = f" (audited count {e['count']} exceeded)" if e else ""
         findings.append({"rule": "E3", "key": f"E3|{key[0]}|{key[1]}|{key[2]}",
                          "msg": f"{key[0]} discards a Result<_, {key[2]}> ({key[1]}, {n} site(s)){extra}: the error never reaches the caller, so a failed step can still end in a font reported as built",
-                         "loc": P.site_loc(key[0], ss[0]["line"]), "detail": {"lines": [s["line"] for s in ss], "callee": ss[0].get("callee"), "producer": ss[0].get("producer")}})
+                         "loc": P.site_loc(ss[0]["fn"], ss[0]["line"]), "detail": {"lines": [s["line"] for s in ss], "callee": ss[0].get("callee"), "producer": ss[0].get("producer")}})
     stale = sorted(f"{k[0]}|{k[1]}|{k[2]}" for k in set(allow) - used)
     stats = {"functions_scanned": len([r for r in reach if r in P.bodies]), "tracked_local_error_types": len(tracked),
              "discard_sites": len(sites), "site_groups": len(grouped), "stale_allow_entries": stale}
